@@ -138,3 +138,119 @@ Theorem C10_finalize_stop_at_first_clean_refuted :
   flookup (t_blocks (finalizeBlockImpl 30 late_dirty_tree 8 2)) 2 <> None.
 Proof. exact finalize_stop_at_first_clean_refuted. Qed.
 Print Assumptions C10_finalize_stop_at_first_clean_refuted.
+
+(* ================================================================================================================
+   Reload equivalence over ALL guarded histories (Store/ReloadEquiv.v: definitions; ReloadWfA.v, ReloadWfB.v: the
+   invariant is inductive; ReloadLoad.v: load of a full dump of a well-formed state; ReloadCont.v: one operation on
+   equivalent states; ReloadGuardB.v: executable guard; ReloadTheorems.v: composition and examples).
+   [guarded h s st]: every operation of [h] satisfies the caller guarantees [pre] in the state it is executed in (the
+   operations of the model take block lists, endorsements and the tip as FREE arguments; for unconstrained arguments
+   the statement is false, see C10_reload_unguarded_refuted). [equiv s s']: same tip; the reloaded blocks are blocks
+   of the live state with equal persisted projection, finalized mark and endorsedBy multiset; every non-deleted live
+   block is reloaded. Ignored: dirty bit, map order, BLOCK_DELETED indices (not loaded by design). *)
+From VB Require Import Store.ReloadEquiv Store.ReloadWfA Store.ReloadWfB Store.ReloadLoad Store.ReloadCont
+  Store.ReloadGuardB Store.ReloadChainWork Store.ReloadTheorems.
+
+(* the well-formedness invariant that makes load succeed holds initially and is preserved by every guarded operation *)
+Theorem C10_reload_wf_inductive :
+  wf init /\
+  (forall o s st s' st', wf s -> pre s o -> step prims_fixed o s st = Done s' st' -> wf s') /\
+  (forall h s st s' st', wf s -> guarded h s st -> run prims_fixed h s st = Done s' st' -> wf s').
+Proof. exact (conj wf_init (conj step_wf (fun h => run_wf h))). Qed.
+Print Assumptions C10_reload_wf_inductive.
+
+(* load of a full dump of ANY well-formed state succeeds (no failure branch of load is reachable), gives an equivalent
+   state, all loaded blocks clean *)
+Theorem C10_load_of_wf :
+  forall s, wf s ->
+  exists s', load prims_fixed (full_dump s) = Loaded s' /\ equiv s s' /\
+             (forall id b, lookup (blocks s') id = Some b -> b_dirty b = false /\ deleted b = false).
+Proof. exact load_of_wf. Qed.
+Print Assumptions C10_load_of_wf.
+
+(* for every guarded history with saves at any positions: the accumulated storage is the full dump, load SUCCEEDS and
+   the loaded state is equivalent to the live one *)
+Theorem C10_reload_equiv :
+  forall h s st,
+  guarded h init storage0 ->
+  run prims_fixed (h ++ [OSave]) init storage0 = Done s st ->
+  wf s /\ st = full_dump s /\
+  exists s', load prims_fixed st = Loaded s' /\ equiv s s' /\
+             (forall id b, lookup (blocks s') id = Some b -> b_dirty b = false /\ deleted b = false).
+Proof. exact reload_equiv. Qed.
+Print Assumptions C10_reload_equiv.
+
+(* ... and the chain work load recomputes from that storage is, for every tree block, the sum of the block proofs along
+   its parent path in the live tree *)
+Theorem C10_reload_chainwork :
+  forall (proof : N -> N) h s st,
+  guarded h init storage0 ->
+  run prims_fixed (h ++ [OSave]) init storage0 = Done s st ->
+  forall id b, vis (blocks s) id = Some b ->
+  exists w, has_work proof (pvis s) id w /\
+            work_of (load_work proof (filter (fun x => negb (s_deleted (p_status (snd x)))) (st_blocks st))) id = w.
+Proof. exact reload_equiv_chainwork. Qed.
+Print Assumptions C10_reload_chainwork.
+
+(* what equivalent states show: same tip, same block (persisted projection + finalized mark) under every id, same
+   endorsedBy multisets *)
+Theorem C10_equiv_observe :
+  forall s s', equiv s s' ->
+  tip s = tip s' /\ (forall id, observe s id = observe s' id) /\
+  (forall id b b', vis (blocks s) id = Some b -> vis (blocks s') id = Some b' -> Permutation.Permutation (b_by b) (b_by b')).
+Proof. exact equiv_observe. Qed.
+Print Assumptions C10_equiv_observe.
+
+(* one operation on equivalent states: same outcome (Done / the same Abort code), equivalent results *)
+Theorem C10_reload_step_equiv :
+  forall o s st s' st', wf s -> pre s o -> equiv s s' ->
+  match step prims_fixed o s st with
+  | Done s1 _ => exists s1' st1', step prims_fixed o s' st' = Done s1' st1' /\ equiv s1 s1'
+  | Abort w => step prims_fixed o s' st' = Abort w
+  end.
+Proof. exact step_equiv. Qed.
+Print Assumptions C10_reload_step_equiv.
+
+(* the reloaded instance follows the live one op for op over every guarded follow-up history *)
+Theorem C10_reload_continues :
+  forall h h2 s st s',
+  guarded ((h ++ [OSave]) ++ h2) init storage0 ->
+  run prims_fixed (h ++ [OSave]) init storage0 = Done s st ->
+  load prims_fixed st = Loaded s' ->
+  equiv s s' /\
+  forall st',
+  match run prims_fixed h2 s st with
+  | Done s1 _ => exists s1' st1', run prims_fixed h2 s' st' = Done s1' st1' /\ equiv s1 s1'
+  | Abort w => run prims_fixed h2 s' st' = Abort w
+  end.
+Proof. exact reload_continues. Qed.
+Print Assumptions C10_reload_continues.
+
+(* without the guarantees the statement is false in the model: an endorsement of a block that does not exist is saved
+   and load fails; a save between unapply and setTip loads, but loadTip re-activates the stored tip *)
+Theorem C10_reload_unguarded_refuted :
+  (exists s st, run prims_fixed ([OApply 0 4 [(1, 99)]] ++ [OSave]) init storage0 = Done s st /\
+                load prims_fixed st = LoadFail 1) /\
+  (exists s st s' b b', run prims_fixed ([OInsertHeader 1 0; OApply 1 4 []; OSetTip 1; OUnapply 1] ++ [OSave]) init storage0 = Done s st /\
+     load prims_fixed st = Loaded s' /\ lookup (blocks s) 1 = Some b /\ lookup (blocks s') 1 = Some b' /\
+     s_active (bstatus b) = false /\ s_active (bstatus b') = true).
+Proof. exact (conj unguarded_reload_refuted save_between_unapply_and_settip_refuted). Qed.
+Print Assumptions C10_reload_unguarded_refuted.
+
+(* the premises are met by a history with forks, invalidation/re-validation, removal and re-adding, payload changes,
+   endorsements, reorgs and saves; the reloaded state is the live one up to dirty bits, map order and removed indices;
+   the follow-up history ends in the same canonical state and the same storage on both instances *)
+Theorem C10_reload_example :
+  guarded ((hist1 ++ [OSave]) ++ hist2) init storage0 /\
+  (exists s0 st0 s st s',
+    run prims_fixed hist1 init storage0 = Done s0 st0 /\ dirty_ids s0 = [0; 1; 2; 3; 4; 6; 5; 7] /\
+    run prims_fixed (hist1 ++ [OSave]) init storage0 = Done s st /\
+    load prims_fixed st = Loaded s' /\
+    canon s0 = canon s' /\ canon s = canon s' /\
+    map fst (blocks s) = [0; 1; 2; 3; 4; 6; 5; 7] /\ map fst (blocks s') = [0; 1; 3; 2; 5; 4; 6]) /\
+  (exists s st s' s1 st1 s1' st1',
+    run prims_fixed (hist1 ++ [OSave]) init storage0 = Done s st /\ load prims_fixed st = Loaded s' /\
+    run prims_fixed hist2 s st = Done s1 st1 /\ run prims_fixed hist2 s' st = Done s1' st1' /\
+    canon s1 = canon s1' /\ st1 = st1').
+Proof. exact (conj hist_guarded (conj reload_example reload_continues_example)). Qed.
+Print Assumptions C10_reload_example.
